@@ -225,7 +225,7 @@ struct World {
     rxbuf: bytes::BytesMut,
     peer_codec: bgp::PeerCodec,
     peer_is_ebgp: bool,
-    fifo: VecDeque<Arc<table::NlriChange>>,
+    fifo: VecDeque<ToPeerEvent>,
     mirror: Mirror,
     registered: bool,
     local: SocketAddr,
@@ -235,16 +235,29 @@ struct World {
 impl World {
     // move what the shard fanned out to the session into the local FIFO
     fn pump(&mut self) {
-        let mut batch = Vec::new();
+        let mut batch: Vec<ToPeerEvent> = Vec::new();
         if let Some(rx) = self.conn.peer_event_rx.as_mut() {
             while let Ok(ev) = rx.as_mut().try_recv() {
-                if let ToPeerEvent::NlriChange(u) = ev {
-                    batch.push(u);
-                }
+                batch.push(ev);
             }
         }
-        batch.sort_by_key(|c| net_idx(&c.net));
+        // the changes of one table operation, in prefix order (a walk comes alone)
+        batch.sort_by_key(|e| match e {
+            ToPeerEvent::NlriChange(c) => net_idx(&c.net),
+            _ => 0,
+        });
         self.fifo.extend(batch);
+    }
+
+    fn queued_nets(&self) -> Vec<Val> {
+        self.fifo
+            .iter()
+            .filter_map(|e| match e {
+                ToPeerEvent::NlriChange(c) => Some(Val::n(net_idx(&c.net))),
+                ToPeerEvent::RefreshWalk { .. } => Some(Val::n(999)),
+                _ => None,
+            })
+            .collect()
     }
 
     // flush_tx, then a KEEPALIVE as an end marker; read and decode until the marker
@@ -425,8 +438,16 @@ async fn run(case: &Val) -> Val {
                 out.push(Val::L(vec![Val::n(1)]));
             }
             4 => {
-                if let Some(c) = w.fifo.pop_front() {
-                    w.conn.handle_prefix_update(c);
+                // the two arms of run_select that take events of this kind
+                match w.fifo.pop_front() {
+                    Some(ToPeerEvent::NlriChange(c)) => w.conn.handle_prefix_update(c),
+                    Some(ToPeerEvent::RefreshWalk { family, changes, last }) => {
+                        w.conn.apply_refresh_walk(family, &changes);
+                        if last && let Some(p) = w.conn.pending.get_mut(&family) {
+                            p.schedule_eor();
+                        }
+                    }
+                    _ => {}
                 }
                 let e = w.conn.pending.get(&FAM).map(|p| p.is_empty()).unwrap_or(true);
                 out.push(Val::L(vec![Val::n(2), Val::b(e)]));
@@ -442,7 +463,7 @@ async fn run(case: &Val) -> Val {
                     Val::n(eor),
                     Val::L(vec![
                         mirror_rows(&w.mirror),
-                        Val::L(w.fifo.iter().map(|c| Val::n(net_idx(&c.net))).collect()),
+                        Val::L(w.queued_nets()),
                     ]),
                 ]));
             }
@@ -497,6 +518,9 @@ async fn run(case: &Val) -> Val {
             }
             _ => panic!("verif: bad op"),
         }
+        if code == 7 {
+            w.pump();
+        }
         if code <= 3 || (10..=12).contains(&code) {
             // what the table emitted
             let mut batch = Vec::new();
@@ -535,7 +559,7 @@ async fn run(case: &Val) -> Val {
     // final reference: a brand-new session with the same parameters, by the real
     // on_established, flushed through the socket
     let pending_empty = w.conn.pending.get(&FAM).map(|p| p.is_empty()).unwrap_or(true);
-    let chan: Vec<Val> = w.fifo.iter().map(|c| Val::n(net_idx(&c.net))).collect();
+    let chan: Vec<Val> = w.queued_nets();
     let mut fresh = Mirror::new();
     // whatever is still pending belongs to the old session
     w.establish().await;
